@@ -101,6 +101,12 @@ MUST_FIRE = [
     ("eer-current-error-after-simulation", ["C08"], ["R8.9"], P + "pool/_expected_error_reduction.py",
      "        # utils are maximized, errors minimized: hence multiply by (-1)\n",
      "        current_error = self._estimate_current_error(\n            id_clf, idx_train, idx_cand, idx_eval, w_eval\n        )\n"),
+    ("random-bm-accounting-ignores-nan", ["C10"], ["R10.7"], BZ,
+     "            tmp_u_t = tmp_u_t * ((self.w - 1) / self.w) + (\n                d and not np.isnan(utilities[i])\n            )\n",
+     "            tmp_u_t = tmp_u_t * ((self.w - 1) / self.w) + d\n"),
+    ("split-update-adapts-in-random-branch", ["C10", "C04"], ["R10.3", "R4.4"], BZ,
+     "                else:\n                    if q:\n                        self.theta_ *= 1 - self.s\n                    else:\n                        self.theta_ *= 1 + self.s\n",
+     "                if q:\n                    self.theta_ *= 1 - self.s\n                else:\n                    self.theta_ *= 1 + self.s\n"),
     # ---- C03
     ("split-set-state-deleted", ["C03"], ["R3"], BZ,
      "        self.random_state_.set_state(random_state_state)\n", "        pass\n"),
